@@ -12,6 +12,7 @@ def obligations(tier):
     for v in ("dbg", "ndbg"):
         o += tc.batch_obligations("load_tree", fam, "h_load.c", {"P_TREE": 1}, variant=v, truncations=False, funcs=F, ptrcheck=False, weight_cap=160, max_cases=24,
                                   desc="cbor_load accepts iff the RFC 8949 reference accepts; read == item length; tree == expected tree (types, widths, values, flavour, chunking, order), refcount 1, input freed before the walk")
+    o += tc.large_obligations("load_tree_large", {"P_TREE": 1}, "load", funcs=F, desc="large shapes (growth past the third reallocation, counts/lengths beyond the immediate form, depth 6, mixed maps): accept, read, tree == expected")
     return o
 
 
